@@ -79,7 +79,8 @@ class Exec2(Exec):
         sym = "ak_" + re.sub(r"[^A-Za-z0-9]", "_", key)
         if sym not in self.keyof:
             self.keyof[sym] = key
-            self.smt.decls.append("(declare-const %s V)" % sym)
+            if "(declare-const %s V)" % sym not in self.smt.decls:   # several executors may share one script
+                self.smt.decls.append("(declare-const %s V)" % sym)
         return sym
 
     def addr_of(self, env, p):
@@ -111,7 +112,8 @@ class Exec2(Exec):
                     if int(f) < len(parts):
                         return parts[int(f)]
             return "(%s (%s %s))" % (self.smt.fun("fld_%s" % f, 1), self.smt.fun("as_%s" % var, 1), base)
-        if base.startswith("(C_") or base.startswith("(CE_"):
+        if base.startswith("(C_") or base.startswith("(CE_") or base.startswith("(mk_"):
+            # constructor terms and struct aggregates (MIR lists all fields in declaration order)
             parts = split_sexpr_args(base)
             if int(key) < len(parts):
                 return parts[int(key)]
@@ -226,6 +228,9 @@ class Exec2(Exec):
     # ------------------------------------------------------------------ rvalues
     def rvalue(self, env, rv):
         rv = rv.strip()
+        m = re.match(r"^((?:copy|move|const) .+) as [^()]+ \((IntToInt|PtrToPtr|PointerCoercion\(.*\)|Transmute|FloatToInt|IntToFloat|PointerExposeProvenance|PointerWithExposedProvenance)\)$", rv)
+        if m:
+            return self.operand(env, m.group(1))
         m = re.match(r"^\((.+),\)$", rv)
         if m and self._balanced(m.group(1)) and len(self.split_args(m.group(1))) == 1:
             return "(%s %s)" % (self.smt.fun("C_tuple1", 1), self.operand(env, m.group(1)))
